@@ -177,6 +177,9 @@ type c17Node struct {
 	Noncanon  bool   // Target is an absolute path spelled with "//", "/./" or a trailing "/"
 	// flags
 	Placeholder bool
+	Gen         bool // generated by the fan-out branch (elided from describe())
+
+	index map[string]*c17Node // lazily built name index of a large directory
 }
 
 func (n *c17Node) content() []byte {
@@ -199,6 +202,17 @@ func (n *c17Node) rel() string {
 }
 
 func (n *c17Node) child(name string) *c17Node {
+	if len(n.Children) > 64 {
+		// names are unique within a directory and children are only ever
+		// appended, so the index is stale exactly when the sizes differ
+		if len(n.index) != len(n.Children) {
+			n.index = make(map[string]*c17Node, len(n.Children))
+			for _, c := range n.Children {
+				n.index[c.Name] = c
+			}
+		}
+		return n.index[name]
+	}
 	for _, c := range n.Children {
 		if c.Name == name {
 			return c
@@ -252,6 +266,19 @@ type c17Scenario struct {
 	Entries      int
 	Serial       int
 	Labels       map[string]bool
+	Fanout       *c17Fanout // nil in most cases: one directory with 1024..5000 entries
+}
+
+// c17Fanout describes the one large directory of a fan-out case. Its entries
+// are derived from Seed (splitmix64), not drawn one by one from rapid.
+type c17Fanout struct {
+	N       int    // number of entries of the directory on the host
+	Seed    uint64 //
+	Dir     string // path below the output root ("" = the output root itself)
+	Via     string // path of a symlink elsewhere in the tree that leads to Dir ("" = none)
+	Files   int
+	Subdirs int
+	Links   int
 }
 
 func c17SetParents(n *c17Node) {
@@ -322,6 +349,10 @@ func (sc *c17Scenario) describe() string {
 	for _, p := range tm {
 		fmt.Fprintf(&sb, "mount %q text content=%q\n", p, sc.TextMnts[p])
 	}
+	if f := sc.Fanout; f != nil {
+		fmt.Fprintf(&sb, "fanout dir=%q entries=%d seed=%d via-link=%q (generated: %d files, %d sub-directories, %d symlinks; names e<5 digits>, \"e <i>\", \"e:<i>\", \"e\\<i>\", \"\u00e9<i>\")\n",
+			"."+f.Dir, f.N, f.Seed, f.Via, f.Files, f.Subdirs, f.Links)
+	}
 	var rec func(n *c17Node)
 	rec = func(n *c17Node) {
 		p := "." + n.rel()
@@ -339,8 +370,21 @@ func (sc *c17Scenario) describe() string {
 		case c17Fifo:
 			fmt.Fprintf(&sb, "  fifo %q\n", p)
 		}
+		shown, hidden := 0, 0
 		for _, c := range n.Children {
+			if c.Gen {
+				// the generated entries of a fan-out directory are a
+				// function of the "fanout" line; list only the first few
+				if shown >= 8 {
+					hidden++
+					continue
+				}
+				shown++
+			}
 			rec(c)
+		}
+		if hidden > 0 {
+			fmt.Fprintf(&sb, "  ... %d more generated entries in %q\n", hidden, p)
 		}
 	}
 	rec(sc.Root)
@@ -384,6 +428,9 @@ func (sc *c17Scenario) freshName(t *rapid.T, d *c17Node, label string) string {
 
 func (sc *c17Scenario) add(parent *c17Node, n *c17Node) *c17Node {
 	n.Parent = parent
+	if parent.index != nil && len(parent.index) == len(parent.Children) {
+		parent.index[n.Name] = n
+	}
 	parent.Children = append(parent.Children, n)
 	sc.Entries++
 	return n
@@ -897,12 +944,184 @@ func (sc *c17Scenario) genSecrets(t *rapid.T) {
 	}
 }
 
+// c17Fair draws an unbiased value in [0,n) (rapid's IntRange/SampledFrom
+// favour small values and the bounds).
+func c17Fair(t *rapid.T, label string, n int) int {
+	v := 0
+	for _, b := range rapid.SliceOfN(rapid.Bool(), 12, 12).Draw(t, label) {
+		v <<= 1
+		if b {
+			v |= 1
+		}
+	}
+	return v % n
+}
+
+// the sizes around the first boundary are drawn three times as often as the
+// two largest (cost grows with the number of entries)
+var c17FanoutSizes = []int{1024, 1024, 1024, 1025, 1025, 1025, 2048, 2048, 2049, 2049, 2600, 5000}
+
+var c17FanoutOneIn = func() int {
+	if os.Getenv("VERIF_TIER") == "thorough" {
+		return 400
+	}
+	return 100
+}()
+
+// genFanout makes one directory of the tree (the output root or a fresh
+// sub-directory) hold exactly N entries: mostly tiny files, about 1 in 48 a
+// sub-directory (empty, or holding one file), about 1 in 16 a symlink to an
+// earlier file or sub-directory of the same directory; optionally a symlink
+// elsewhere in the tree leads to the large directory. The entries are
+// derived from a drawn seed.
+func (sc *c17Scenario) genFanout(t *rapid.T) {
+	fo := &c17Fanout{N: c17FanoutSizes[c17Fair(t, "fanoutN", len(c17FanoutSizes))]}
+	fo.Seed = uint64(c17Fair(t, "fanoutSeedHi", 4096))<<12 | uint64(c17Fair(t, "fanoutSeedLo", 4096))
+	big := sc.Root
+	if c17Fair(t, "fanoutWhere", 3) != 0 {
+		var dirs []*c17Node
+		for _, x := range sc.allNodes(c17Dir) {
+			if !x.Placeholder && x.depth() < 3 {
+				dirs = append(dirs, x)
+			}
+		}
+		parent := rapid.SampledFrom(dirs).Draw(t, "fanoutParent")
+		sc.Serial++
+		name := fmt.Sprintf("fan%d", sc.Serial)
+		if rapid.Bool().Draw(t, "fanoutNameSpecial") {
+			name = fmt.Sprintf("f:an out%d", sc.Serial)
+		}
+		for parent.child(name) != nil {
+			name += "_"
+		}
+		big = sc.add(parent, &c17Node{Name: name, Kind: c17Dir})
+		sc.label("fanout:in-subdir")
+	} else {
+		sc.label("fanout:in-output-root")
+	}
+	fo.Dir = big.rel()
+	bigCtr := sc.CtrOut + fo.Dir
+	state := fo.Seed
+	next := func() uint64 {
+		state += 0x9e3779b97f4a7c15
+		z := state
+		z = (z ^ (z >> 30)) * 0xbf58476d1ce4e5b9
+		z = (z ^ (z >> 27)) * 0x94d049bb133111eb
+		return z ^ (z >> 31)
+	}
+	var plain, full []*c17Node
+	for i := 0; len(big.Children) < fo.N; i++ {
+		r := next()
+		var name string
+		switch (r >> 20) % 12 {
+		case 0:
+			name = fmt.Sprintf("e %d", i)
+		case 1:
+			name = fmt.Sprintf("e:%d", i)
+		case 2:
+			name = fmt.Sprintf(`e\%d`, i)
+		case 3:
+			name = fmt.Sprintf("é%d", i)
+		default:
+			name = fmt.Sprintf("e%05d", i)
+		}
+		for big.child(name) != nil {
+			name += "_"
+		}
+		kind := r % 48
+		if kind >= 1 && kind <= 3 && len(plain) == 0 {
+			kind = 4
+		}
+		switch kind {
+		case 0:
+			d := sc.add(big, &c17Node{Name: name, Kind: c17Dir, Gen: true})
+			if (r>>4)%2 == 0 {
+				sc.Serial++
+				sc.add(d, &c17Node{Name: "x", Kind: c17File, Size: 1 + int((r>>5)%3), Salt: sc.Serial, Gen: true})
+				full = append(full, d)
+			}
+			fo.Subdirs++
+		case 1, 2, 3:
+			l := &c17Node{Name: name, Kind: c17Link, Gen: true}
+			var tgt *c17Node
+			if (r>>4)%3 == 0 && len(full) > 0 {
+				tgt = full[int((r>>8)%uint64(len(full)))]
+				l.Lkind = "fanout-sibling-dir"
+			} else {
+				tgt = plain[int((r>>8)%uint64(len(plain)))]
+				l.Lkind = "fanout-sibling-file"
+			}
+			l.CtrTarget = bigCtr + "/" + tgt.Name
+			switch (r >> 40) % 3 {
+			case 0:
+				l.Target = l.CtrTarget
+			case 1:
+				l.Target = tgt.Name
+			default:
+				l.Target = "./" + tgt.Name
+			}
+			sc.add(big, l)
+			fo.Links++
+		default:
+			size := 0
+			switch (r >> 4) % 8 {
+			case 0, 1, 2:
+				size = 1
+			case 3:
+				size = 2
+			case 4:
+				size = 3
+			case 5:
+				if (r>>12)%8 == 0 {
+					size = sc.B + 1
+				}
+			}
+			sc.Serial++
+			plain = append(plain, sc.add(big, &c17Node{Name: name, Kind: c17File, Size: size, Salt: sc.Serial, Gen: true}))
+			fo.Files++
+		}
+	}
+	if len(big.Children) != fo.N {
+		t.Fatalf("VERIF-INFRA: fan-out directory has %d entries, wanted %d", len(big.Children), fo.N)
+	}
+	if big != sc.Root && rapid.Bool().Draw(t, "fanoutVia") {
+		var dirs []*c17Node
+		for _, x := range sc.allNodes(c17Dir) {
+			if !x.Placeholder && !x.Gen && !c17IsAncestorOrSelf(big, x) {
+				dirs = append(dirs, x)
+			}
+		}
+		d := rapid.SampledFrom(dirs).Draw(t, "fanoutViaDir")
+		l := sc.addLink(t, d, bigCtr, "fanout-dir")
+		fo.Via = l.rel()
+		sc.label("fanout:also-through-symlink")
+	}
+	sc.label(fmt.Sprintf("fanout:entries=%d", fo.N))
+	if fo.Subdirs > 0 {
+		sc.label("fanout:with-subdirs")
+	}
+	if fo.Links > 0 {
+		sc.label("fanout:with-symlinks")
+	}
+	sc.Fanout = fo
+}
+
 func c17Gen(t *rapid.T) *c17Scenario {
 	sc := &c17Scenario{Labels: map[string]bool{}, TextMnts: map[string]string{}}
 	sc.B = rapid.SampledFrom([]int{8, 32, 100}).Draw(t, "B")
 	sc.CtrOut = rapid.SampledFrom([]string{"/ctr/outdir", "/var/spool/cwl", "/out"}).Draw(t, "ctrOut")
 	sc.Root = &c17Node{Kind: c17Dir}
 	bad := rapid.IntRange(0, 9).Draw(t, "badMode") < 3
+	// About one case in 100 (quick tier; one in 400 in the thorough tier,
+	// which runs 60 times as many cases) has one directory with a large
+	// fan-out; those trees are otherwise free of links that must fail, so
+	// that the copy is really compared. A fan-out case costs 0.3-2 CPU-s
+	// (the copier allocates a 32 KiB buffer per file and flushes the
+	// collection at every change of directory).
+	fanout := c17Fair(t, "fanoutMode", c17FanoutOneIn) == 17
+	if fanout {
+		bad = false
+	}
 	sc.Noncanonical = rapid.IntRange(0, 9).Draw(t, "noncanonicalMode") == 0
 	sc.genDir(t, sc.Root, 1)
 	sc.genMounts(t)
@@ -921,6 +1140,9 @@ func c17Gen(t *rapid.T) *c17Scenario {
 		sc.label("text-mount-below-output")
 	}
 	sc.genLinks(t, bad)
+	if fanout {
+		sc.genFanout(t)
+	}
 	if bad && rapid.IntRange(0, 5).Draw(t, "fifo") == 0 {
 		dirs := sc.allNodes(c17Dir)
 		var ok []*c17Node
@@ -1066,7 +1288,7 @@ func (e *c17Exp) mountsBelow(dest, ctr string, depth int) {
 
 func (e *c17Exp) walk(dest, ctr string, depth int, stack []string, below bool) {
 	e.visits++
-	if e.visits > 4000 {
+	if e.visits > 4000 && (e.sc.Fanout == nil || e.visits > 60000) {
 		e.tooBig = true
 		return
 	}
@@ -1352,7 +1574,12 @@ func c17Canonical(sc *c17Scenario) (*c17Scenario, int) {
 const c17KnownNoncanonical = "c17-noncanonical-abs-symlink-target"
 
 func c17Check(t c17TB, sc *c17Scenario) {
+	t0 := time.Now()
 	v := c17Evaluate(sc)
+	if sc.Fanout != nil {
+		// informational only (how much of the budget the rare large cases take)
+		stats.InfoAdd("fanout_evaluate_ms_total", time.Since(t0).Milliseconds())
+	}
 	if v.skip {
 		t.Skip("expected tree too large")
 	}
@@ -1449,6 +1676,12 @@ func c17Check(t c17TB, sc *c17Scenario) {
 		}
 	}
 	labels = append(labels, fmt.Sprintf("mounts:%d", len(sc.Mounts)), fmt.Sprintf("secrets:%d", len(sc.Secrets)))
+	if sc.Fanout != nil && res.err == nil && res.panicked == nil {
+		labels = append(labels, "fanout:copied-and-compared", fmt.Sprintf("fanout:copied-and-compared:entries=%d", sc.Fanout.N))
+		if sc.Fanout.Via != "" {
+			labels = append(labels, "fanout:copied-and-compared:also-through-symlink")
+		}
+	}
 	sort.Strings(labels)
 	nlinks := len(sc.allNodes(c17Link))
 	below := false
@@ -1463,7 +1696,13 @@ func c17Check(t c17TB, sc *c17Scenario) {
 	stats.InfoAdd("host_entries_total", int64(sc.Entries))
 	stats.InfoAdd("symlinks_total", int64(nlinks))
 	stats.InfoAdd("expected_files_compared_total", int64(len(exp.Files)))
-	if nontrivial && stats.WantSample(outcome) {
+	if sc.Fanout != nil {
+		stats.InfoAdd("fanout_cases", 1)
+		stats.InfoAdd("fanout_expected_files_compared_total", int64(len(exp.Files)))
+		if stats.WantSample("fanout") {
+			stats.Sample("fanout", map[string]interface{}{"scenario": desc, "outcome": outcome, "expected_files": len(exp.Files), "manifest_bytes": len(res.text), "error": fmt.Sprint(res.err)})
+		}
+	} else if nontrivial && stats.WantSample(outcome) {
 		stats.Sample(outcome, map[string]interface{}{"scenario": desc, "manifest": res.text, "error": fmt.Sprint(res.err), "panic": fmt.Sprint(res.panicked), "must_fail": exp.mustFail, "may_fail": exp.mayFail})
 	}
 }
